@@ -246,7 +246,16 @@ pub fn check_pack(c: &PackCase, st: &mut Stats) -> CheckResult {
         // power-of-two ranges: uniform bytes; (eta, eta): mostly the packing of an in-range vector with planted
         // fields, so that single out-of-range fields among in-range ones occur
         let pow2 = ((a + b + 1) as u64).is_power_of_two();
-        let mut v = if pow2 || c.bytes_seed % 4 == 0 { gen::prg_bytes(c.bytes_seed, "pack-bytes", 32 * bits) } else { out.clone() };
+        let mut v = if c.bytes_seed % 16 == 1 {
+            // constant fill: every field carries the same raw value (all ones half of the time): 256 inadmissible
+            // fields at once for the (eta, eta) ranges
+            st.class(&format!("unpack{tag}:constant_fill"));
+            vec![if (c.bytes_seed >> 4) % 2 == 0 { 0xFF } else { (c.bytes_seed >> 8) as u8 }; 32 * bits]
+        } else if pow2 || c.bytes_seed % 4 == 0 {
+            gen::prg_bytes(c.bytes_seed, "pack-bytes", 32 * bits)
+        } else {
+            out.clone()
+        };
         for (pos, kind) in &c.plants {
             let f = *pos as usize;
             let all_ones = (1i64 << bits) - 1;
@@ -383,9 +392,12 @@ pub fn run(ctx: &Ctx, rep: &mut Report) {
     run_generated(ctx, rep, "layouts", ctx.n(10_000, 200_000), layout_strategy, check_layout);
     hint_sweep::<1>(rep, "hint_unpack_exhaustive:K1_omega2", 2, None);
     hint_sweep::<1>(rep, "hint_unpack_exhaustive:K1_omega1", 1, None);
+    // alphabets reach past omega (omega+1 .. 2*omega: counts that exceed omega while each increment stays <= omega)
     let alpha = [0u8, 1, 2, 3, 254, 255];
-    hint_sweep::<2>(rep, "hint_unpack_alphabet:K2_omega3", 3, Some(&alpha));
-    hint_sweep::<3>(rep, "hint_unpack_alphabet:K3_omega4", 4, Some(&alpha));
+    let alpha3 = [0u8, 1, 2, 3, 4, 5, 6, 7, 254, 255];
+    let alpha4 = [0u8, 1, 2, 3, 4, 5, 6, 8, 254, 255];
+    hint_sweep::<2>(rep, "hint_unpack_alphabet:K2_omega3", 3, Some(&alpha3));
+    hint_sweep::<3>(rep, "hint_unpack_alphabet:K3_omega4", 4, Some(&alpha4));
     if !ctx.quick() {
         hint_sweep::<2>(rep, "hint_unpack_exhaustive:K2_omega2", 2, None);
         hint_sweep::<3>(rep, "hint_unpack_alphabet:K3_omega5", 5, Some(&alpha));
